@@ -766,8 +766,7 @@ func c13Gen(r *Rng, tier string, n int) []Case {
 	out = append(out, c13Cases([]*c13Tree{vars(leaf("v", c13Plain(0, "outer"))),
 		{Name: "c", IsMap: true, Kids: []*c13Tree{vars(leaf("v", c13Plain(0, "inner"))), leaf("x", sub(0, "v"))}}, leaf("y", sub(0, "v"))}, "corpus", nil)...)
 	out = append(out, c13Cases([]*c13Tree{vars(leaf("v", c13Plain(0, "hi"))), leaf("x", sub(0, "nope"))}, "corpus-undefined", nil)...)
-	out = append(out, c13Cases([]*c13Tree{vars(&c13Tree{Name: "x"}), leaf("a", sub(1, "x"))}, "corpus-valueless",
-		[]string{"C13-valueless-var-in-quotes"})...)
+	out = append(out, c13Cases([]*c13Tree{vars(&c13Tree{Name: "x"}), leaf("a", sub(1, "x"))}, "corpus-valueless", nil)...)
 	out = append(out, c13Cases([]*c13Tree{vars(leaf("a", c13Plain(3, "1"))), leaf("x", sub(0, "a", "b"))}, "corpus-scalar-path",
 		[]string{"C13-path-into-scalar-var"})...)
 	out = append(out, c13Cases([]*c13Tree{leaf("x", &c13Scalar{Kind: 0, Boxes: []c13Box{{Str: "p"}, {Sub: []string{"b"}}}}),
